@@ -24,7 +24,7 @@ ENCODED = [diffs.diff_iter, diffs.reduce_iter, dicts.resolve, dicts.remove, dict
            progress.SmartProgressStorage, conventions.StorageKeyMarkingConvention, conventions.StorageStanzaCleaner,
            _handlers.ResourceHandler.adjust_cause, _processing.process_resource_event]
 META = {
-    'bounds': 'H5 (field view): a handled object (stored diff-base + finished progress) then one of 5 edits, an update handler on one of 4 fields, through one real processing step. Templates {a: X, b: Y}; X in absent|leaf|{c: leaf}|{c: leaf, d: leaf} (thorough) ; Y in absent|leaf; leaf in '
+    'bounds': 'H6b (E4, smt_marker): the marker rule (written iff the prefix is not recognised by itself) for EVERY prefix of 1..253 characters over [a-z0-9.-], from the AST of _store_marker/_detect_marked_prefixes. H5 (field view): a handled object (stored diff-base + finished progress) then one of 5 edits, an update handler on one of 4 fields, through one real processing step. Templates {a: X, b: Y}; X in absent|leaf|{c: leaf}|{c: leaf, d: leaf} (thorough) ; Y in absent|leaf; leaf in '
               'null|int(symbolic, unbounded)|[int]|{}|str(2 concrete values); field paths up to length 3; storage cells: '
               'annotations/status/smart progress x annotations/status/multi diff-base x v1 on/off; prefixes: 5 concrete + '
               'symbolic prefix of length<=6 over [a-z.] for the marker logic; handler ids: concrete short ids + one symbolic id char',
@@ -324,6 +324,85 @@ def h_other_operator(p0: int, p1: int, has_ann: bool, which: int, spec_v: int) -
     return vkopf.verdict(e1 == e0)
 
 
+# ------------------------------------------------------------------------------ H6b (E4): the marker rule for EVERY prefix
+def smt_marker(cell=None, replay=None):
+    """E4: `_store_marker` writes the kopf-managed marker for exactly those prefixes that `_detect_marked_prefixes` would not
+    recognise by the prefix alone -- for EVERY prefix string (length <= 253), not the five representatives of h_other_operator.
+    Both predicates are translated from the CURRENT source of the two methods (`prefix in KNOWN`, `prefix.endswith('.'+p)`);
+    z3 decides their equivalence; a counterexample prefix is replayed through the real storages (region of the fixed F5)."""
+    import time
+    import z3
+    from vkopf import astsmt
+    from kopf._cogs.configs import conventions
+    M = conventions.StorageKeyMarkingConvention
+    known_prefixes = getattr(M, '_StorageKeyMarkingConvention__KNOWN_PREFIXES')
+    known_markers = getattr(M, '_StorageKeyMarkingConvention__KNOWN_MARKERS')
+    if replay is not None:
+        # concrete replay: another operator with this prefix writes its progress; is that write invisible to us?
+        mine, theirs = 'my.op.io', replay['prefix']
+        import warnings
+        with warnings.catch_warnings():
+            warnings.simplefilter('ignore')
+            ps, ds = make_storages({}, prefix=mine)
+            ps2, ds2 = make_storages({}, prefix=theirs)
+        raw = sym_body(True, False, False, 1, 0)
+        e0 = essence(ps, ds, raw)
+        patch = patches.Patch()
+        ps2.store(key='fn', record=progress.ProgressRecord(started='2020-01-01T00:00:00', retries=1), body=bodies.Body(raw), patch=patch)
+        after = rfc7386(raw, dict(patch))
+        return essence(ps, ds, after) == e0
+    t0 = time.time()
+    try:
+        prefix = astsmt.BaseStr('prefix')
+        env = {'prefix': prefix, 'self.__KNOWN_PREFIXES': known_prefixes, 'self.__KNOWN_MARKERS': known_markers}
+        import ast as _ast
+        import inspect
+        import textwrap
+        tree = _ast.parse(textwrap.dedent(inspect.getsource(M._store_marker)))
+        # _store_marker: the straight-line assignments, then the guard of the first `if` = "the marker is written"
+        assigns = [st for st in tree.body[0].body if isinstance(st, _ast.Assign)]
+        env_after = astsmt.translate_statements(assigns, env)
+        first_if = [st for st in tree.body[0].body if isinstance(st, _ast.If)][0]
+        tr0 = astsmt._Tr({})
+        store_known = z3.Not(tr0.truth(tr0.ex(first_if.test, env_after)))
+        # _detect_marked_prefixes: the tests of the if/elif chain that do not look at the name
+        tree2 = _ast.parse(textwrap.dedent(inspect.getsource(M._detect_marked_prefixes)))
+        tests = [n.test for n in _ast.walk(tree2) if isinstance(n, _ast.If)]
+        tr = astsmt._Tr({})
+        by_prefix = [tr.truth(tr.ex(t, env)) for t in tests if 'name' not in _ast.unparse(t)]
+        if len(tests) != 3 or len(by_prefix) != 2:
+            raise astsmt.Unsupported(f'unexpected shape of _detect_marked_prefixes: {len(tests)} tests')
+        detect_known = z3.Or(*by_prefix)
+    except astsmt.Unsupported as e:
+        return {'status': 'harness_error', 'message': f'marker logic no longer translatable: {e}'}
+    # translation validation on concrete prefixes: the real methods vs. the terms
+    m = M()
+    for pfx in ('kopf.zalando.org', 'kopf.dev', 'x.kopf.zalando.org', 'my.op.io', 'kopf.zalando.org.evil', 'zalando.org'):
+        real_detect = pfx in m._detect_marked_prefixes([f'{pfx}/anything'])
+        patch = patches.Patch()
+        m._store_marker(prefix=pfx, patch=patch, body=bodies.Body({}))
+        real_store_known = not patch
+        sv = z3.Solver()
+        sv.add(*prefix.bind(pfx))
+        if str(sv.check()) != 'sat' or bool(sv.model().eval(detect_known, model_completion=True)) != real_detect or \
+                bool(sv.model().eval(store_known, model_completion=True)) != real_store_known:
+            return {'status': 'harness_error', 'message': f'encoding of the marker logic disagrees with the real methods for {pfx!r}'}
+    s = z3.Solver()
+    s.set('timeout', 60000)
+    s.add(prefix.length >= 1, prefix.length <= 253)
+    s.add(*prefix.instances(lambda a, c: z3.Or(z3.And(c >= 97, c <= 122), z3.And(c >= 48, c <= 57), c == 45, c == 46)))
+    s.add(store_known != detect_known)
+    r = str(s.check())
+    out = {'paths': 1, 'harness_calls': 1, 'nontrivial_paths': 1, 'queries': 1, 'solver_s': round(time.time() - t0, 3), 'tags': {'smt_goal': 1}}
+    if r == 'unsat':
+        out.update(status='confirmed', message='z3: unsat -- marker written iff the prefix is not recognised by itself, for every prefix of 1..253 characters')
+    elif r == 'sat':
+        out.update(status='counterexample', message='z3: sat', args={'replay': {'prefix': prefix.concrete(s.model(), default='a')}})
+    else:
+        out.update(status='inconclusive', message=f'z3: {r}')
+    return out
+
+
 # ------------------------------------------------------------------------------ H5 the view narrowed to a handler's field
 # (field='metadata' as a whole is left out: a handler's field is an 'extra field' of the essence, so it would pull the system
 # metadata -- resourceVersion and all -- into every comparison; that is documented behaviour of a degenerate declaration)
@@ -418,7 +497,7 @@ def field_view_impl(has_lbl, has_status, spec_v, what, fi):
 
 
 def obligations():
-    obs = []
+    obs = [Ob('smt_marker', {}, engine='smt', timeout=300)]
     # diffs: quick = a sample of shape cells (split further by the presence of the second key), thorough = all shapes
     for (axs, bxs) in ((1, 2), (2, 2), (2, 1)):
         obs += split(Ob('h_diff', {'axs': axs, 'bxs': bxs}, tiers=('quick',), timeout=600), ays=[0, 1], bys=[0, 1])
